@@ -652,6 +652,9 @@ func main() {
 				if tc.Fault != nil || tc.Panic != "" {
 					v.disarm()
 				}
+				if run.WantSample() && i%37 == w {
+					run.Sample(map[string]any{"case": describe(tc), "write_scheduler": v.sched, "outcome": "process alive, control client served on both protocols"})
+				}
 				if tc.Class == "stall" && tc.stallErr != "" && v.alive() {
 					report(tc, "while a client is stalled at "+tc.Step+" the proxy does not serve other connections ("+tc.stallErr+")")
 				}
@@ -678,6 +681,9 @@ func main() {
 					go func(tc *tcase) { defer bw.Done(); execCase(v, tc) }(tc)
 				}
 				bw.Wait()
+				if run.WantSample() && off == 0 {
+					run.Sample(map[string]any{"batch_of": len(batch), "first_case": describe(batch[0]), "first_case_bytes_hex": verdict.Hex(batch[0].raw[:min(len(batch[0].raw), 64)])})
+				}
 				tag := fmt.Sprintf("ctl-%d", atomic.AddInt64(&ctlN, 1))
 				run.Add("control_checks", 1)
 				if v.alive() && v.control(tag) == nil {
